@@ -37,7 +37,7 @@ REAL = ['py4hw.simulation.Simulator (topologicalSort, propagateAll, clk)', 'py4h
 STUB = ['stimulus (wire.put between clk calls)']
 ASSUMPTIONS = ['reference models in dsim/catalog.py state the documented function of each block',
                'netlists up to ~150 leaves / chains up to 900 deep (thorough); widths up to 70']
-PROBES = ['const_update', 'stop_cancel', 'sorter_needed_repair', 'cyclic_refused', 'reg_cycle_accepted', 'late_add', 'antidataflow_block']
+PROBES = ['gated_top_driver', 'simulator_before_cycle_closed', 'const_update', 'stop_cancel', 'sorter_needed_repair', 'cyclic_refused', 'reg_cycle_accepted', 'late_add', 'antidataflow_block']
 
 STATEFUL_LEAVES = {'Latch', 'AsynchronousMemory', 'BidirBuf'}
 
@@ -62,6 +62,11 @@ def gen(rs, tier, index):
     if mode >= 0.12 and mode < 0.30:
         scn['mode'] = 'cyclic'
         add_comb_cycle(rng, d)
+    if scn['mode'] == 'acyclic' and any(KINDS[n['kind']].seq for n in d['nodes']) and rng.random() < 0.2:
+        # every register behind a gated clock: combinational logic must still settle at edges that clock nothing
+        nm = 'i%d' % len(d['inputs'])
+        d['inputs'].append({'name': nm, 'w': 1, 'role': 'enable'})
+        d['top_enable'] = nm
     order = list(d['order'])
     r = rng.random()
     if r < 0.5:
@@ -186,17 +191,27 @@ def run(scn, log, st):
         seams.perm_children(b.hw, random.Random(scn['perm']), st)
     if scn['mode'] == 'cyclic':
         if late is not None:
+            # a simulator may already exist when the blocks that close the loop are added
+            try:
+                with quiet():
+                    b.hw.getSimulator()
+                st.probe('simulator_before_cycle_closed')
+            except Exception:
+                pass
             b.build(order)
-        try:
-            with quiet():
-                sim = b.hw.getSimulator()
-        except Exception as e:
-            st.probe('cyclic_refused')
-            st.nontrivial = True
-            log.add('refused', type(e).__name__)
-            return
-        raise Violation('cycle-accepted', 'cycle-accepted', 0,
-                        'netlist with a combinational cycle of length %s was simulated' % d.get('cycle_len'))
+        for attempt in range(3):
+            # the refusal must be repeatable: asking again (a retry after the error) must not hand out a simulator
+            try:
+                with quiet():
+                    sim = b.hw.getSimulator()
+            except Exception as e:
+                st.probe('cyclic_refused')
+                st.nontrivial = True
+                log.add('refused', type(e).__name__)
+                continue
+            raise Violation('cycle-accepted', 'cycle-accepted' if attempt == 0 else 'cycle-accepted:on-retry', attempt,
+                            'netlist with a combinational cycle of length %s was simulated (request %d)' % (d.get('cycle_len'), attempt + 1))
+        return
     if not unsorted_ok(b.hw):
         st.probe('sorter_needed_repair')
         st.nontrivial = True
@@ -261,8 +276,13 @@ def run(scn, log, st):
             n = stop_at
         else:
             sim.clk(n)
+        en = None
+        if d.get('top_enable'):
+            ten = ref.b.wires[d['top_enable']]
+            st.probe('gated_top_driver')
+            en = (lambda leaf: ten.get() != 0)
         for _ in range(n):
-            ref.edge()
+            ref.edge(enabled=en)
         st.cycles += n
         check_all(b, sim, ref, si, 'after clk(%d) of step %d' % (n, si), st)
         log.add('step', si, h64(sorted((r, w.get()) for r, w in b.wires.items())))
